@@ -22,7 +22,7 @@ func init() {
 		// C11: a view's root is never descended into by the walk, so the search permission the parent enforces on the
 		// way down is enforced for the view only by the check on the containing directory at the point of change.
 		AlsoOnly: map[string][]string{"C11": {" insert into ", " remove from ", " lookup in "}}, AlsoFloor: map[string]int{"C11": 10},
-		Text: "must-check-before-act, decided on every acyclic path to the act: (1) an entry is added to / removed from directory p only after p.checkPermission(mask including OpenWrite and OpenLookup, user) returned true on that path (pointer-equality decisions on the path make the check on one name count for the other; objects allocated by the call need none); (2) the content of an existing file is truncated by a path-level call only after checkPermission including write on that file (or with the decoded open mode, whose decoder guarantees OpenTruncate => OpenWrite, C01.flags); (3) setOwner only after the administrator test; (4) the boolean result of setMode / setModTime is tested and its false branch returns an error; (5) the walk descends into a directory only after checkPermission(OpenLookup) on it; (6) OpenFile hands out a handle on an existing node only after checkPermission on it",
+		Text: "must-check-before-act, decided on every acyclic path to the act: (1) an entry is added to / removed from directory p only after p.checkPermission(mask including OpenWrite, user) returned true on that path - and including OpenLookup unless p is the directory result of the walk, on which clause (5) has tested search permission where the last name was looked up (pointer-equality decisions on the path make the check on one name count for the other; objects allocated by the call need none); (2) the content of an existing file is truncated by a path-level call only after checkPermission including write on that file (or with the decoded open mode, whose decoder guarantees OpenTruncate => OpenWrite, C01.flags); (3) setOwner only after the administrator test; (4) the boolean result of setMode / setModTime is tested and its false branch returns an error; (5) the walk descends into a directory only after checkPermission(OpenLookup) on it; (6) OpenFile hands out a handle on an existing node only after checkPermission on it",
 		Run:  c03Matrix})
 	register(&Rule{ID: "C03.admin", Also: []string{"C16"}, AlsoOnly: map[string][]string{"C16": {"stranger-refused"}}, AlsoFloor: map[string]int{"C16": 1}, Floor: 3,
 		Text: "the administrator is never refused: in checkPermission, setMode and setModTime every path that returns false has seen IsAdmin() == false",
@@ -117,6 +117,27 @@ func nonFreshKeys(v ssa.Value) (keys []string, anyShared bool) {
 	return []string{k.s}, true
 }
 
+// dirFromWalk: every value v can stand for is the directory result of the path walk (the directory in which the walk
+// made its last lookup, after testing search permission on it) or an object this call created.
+func dirFromWalk(v ssa.Value) bool {
+	n := 0
+	for _, o := range originsOf(v) {
+		switch x := o.(type) {
+		case *ssa.Extract:
+			c, ok := x.Tuple.(*ssa.Call)
+			if !ok || x.Index != 0 || c.Call.StaticCallee() == nil || c.Call.StaticCallee().Name() != "searchNode" {
+				return false
+			}
+			n++
+		case *ssa.Alloc, *ssa.Call:
+			// a fresh object, or the result of a creating helper
+		default:
+			return false
+		}
+	}
+	return n > 0
+}
+
 func c03Matrix(rc *RuleCtx) {
 	a := lockAnalysisFor(rc.C)
 	prims := computeMapPrims(rc.C, a, map[string]bool{"memfs": true})
@@ -188,9 +209,15 @@ func c03Matrix(rc *RuleCtx) {
 						rc.bad(cons, ci.Pos(), "too many paths to decide")
 						continue
 					}
+					// the directory in which the walk made its last lookup was tested for search permission there, clause
+					// (5): for it the check at the point of change need only establish write permission
+					need := wr | lk
+					if dirFromWalk(args[p.objParam]) {
+						need = wr
+					}
 					bad := false
 					for _, p := range paths {
-						if feasiblePath(p) && !permCheckedOnPath(p, keys, wr|lk, nil) {
+						if feasiblePath(p) && !permCheckedOnPath(p, keys, need, nil) {
 							bad = true
 						}
 					}
